@@ -250,6 +250,32 @@ pub fn dtls_catalog(thorough: bool) -> Vec<Item> {
             }
         }
     }
+    // multi-step inputs: a handshake message delivered as a SEQUENCE of well-formed fragments - a
+    // first fragment [0..a), then a second one anywhere relative to the collected prefix (inside
+    // it, overlapping its end, adjacent, beyond a hole, empty), optionally followed by the rest
+    {
+        let frag = |off: usize, n: usize| {
+            let end = (off + n).min(ch_body.len());
+            let off = off.min(end);
+            hs_record(1, 0, l, off as u32, (end - off) as u32, &ch_body[off..end])
+        };
+        let firsts: &[usize] = if thorough { &[8, 16, 40, 64] } else { &[16, 40] };
+        let lens: &[usize] = if thorough { &[0, 1, 4, 8, 16, 32] } else { &[0, 8, 16] };
+        for &a in firsts {
+            let mut offs = vec![0usize, 4, 8, a.saturating_sub(8), a.saturating_sub(1), a, a + 1, a + 8];
+            offs.sort_unstable();
+            offs.dedup();
+            for &o in &offs {
+                for &n in lens {
+                    let base = vec![frag(o, n)];
+                    out.push(Item { layer: "dtls", family: format!("ClientHello;fragment-chain;first=0..{a};second={o}+{n}"), bytes: frag(0, a), chain: base.clone() });
+                    let mut with_rest = base;
+                    with_rest.push(frag(a, ch_body.len()));
+                    out.push(Item { layer: "dtls", family: format!("ClientHello;fragment-chain;first=0..{a};second={o}+{n};then-rest"), bytes: frag(0, a), chain: with_rest });
+                }
+            }
+        }
+    }
     // record level: every content type x epoch with lengths around the boundaries, truncated records
     for ctype in [19u8, 20, 21, 22, 23, 24, 25, 63] {
         for epoch in [0u16, 1, 2, 0xFFFF] {
